@@ -565,6 +565,12 @@ func (c *client) lookupRegion(ctx context.Context,
 	var err error
 	backoff := backoffStart
 	for {
+		select {
+		case <-c.done:
+			// the client has been closed, nobody needs this region anymore
+			return nil, "", ErrClientClosed
+		default:
+		}
 		// If it takes longer than regionLookupTimeout, fail so that we can sleep
 		lookupCtx, cancel := context.WithTimeout(ctx, c.regionLookupTimeout)
 		if c.clientType == region.MasterClient {
@@ -619,6 +625,11 @@ func (c *client) lookupAllRegions(ctx context.Context,
 	var err error
 	backoff := backoffStart
 	for {
+		select {
+		case <-c.done:
+			return nil, ErrClientClosed
+		default:
+		}
 		// If it takes longer than regionLookupTimeout, fail so that we can sleep
 		lookupCtx, cancel := context.WithTimeout(ctx, c.regionLookupTimeout)
 		c.logger.Debug("looking up regions", "table", strconv.Quote(string(table)))
